@@ -301,9 +301,6 @@ def r_hash_order(repo, rep, files, R='R14.2'):
     for rel in files:
         mod = repo.module(rel)
         for fn in [f for f in ast.walk(mod.tree) if isinstance(f, ast.FunctionDef)]:
-            loops = [l for l in ast.walk(fn) if isinstance(l, ast.For) and enclosing_function(l) is fn]
-            if not loops:
-                continue
             seen = set()
             for st, out in SymExec(fn, unroll=1).run():
                 for e in st.events:
@@ -323,7 +320,43 @@ def r_hash_order(repo, rep, files, R='R14.2'):
                                       % src(e[2].iter))
                         else:
                             rep.ok(R, w, 'loop over `%s` is not over a set' % src(e[2].iter)[:60], nontrivial=False)
+                    if e[0] == 'loop-folded' and id(e[3]) not in seen:
+                        # a loop that only appends to a fresh list: the list has the iteration order
+                        seen.add(id(e[3]))
+                        n_loops += 1
+                        w = '%s:%s %s' % (rel, e[3].lineno, qualname_of(fn))
+                        rep.check(not set_typed(e[1]), R, w, '%s:%s:set-iteration:%s' % (rel, qualname_of(fn), src(e[3].iter)),
+                                  'the list built from `%s` does not take its order from a set' % src(e[3].iter)[:60],
+                                  'builds a list by iterating the set `%s` (hash order, differs between processes for strings): the outcome depends on PYTHONHASHSEED'
+                                  % src(e[3].iter))
+                # ordered comprehensions over sets, unless consumed by an order-insensitive reduction
+                terms = [t for e in st.events for t in e[1:-1] if isinstance(t, tuple)] + ([st.ret] if st.ret else [])
+                for t in terms:
+                    for comp, parent in _comps_with_parent(t, None):
+                        if comp[0] not in ('listcomp', 'genexp') or not any(set_typed(g[0]) for g in comp[2]):
+                            continue
+                        key = '%s:%s:set-comprehension:%s' % (rel, qualname_of(fn), show(comp[2][0][0])[:40])
+                        if key in seen:
+                            continue
+                        seen.add(key)
+                        reducing = parent is not None and parent[0] == 'call' and parent[1][0] == 'name' and \
+                            parent[1][1] in ('set', 'frozenset', 'sorted', 'any', 'all', 'sum', 'min', 'max', 'len')
+                        rep.check(reducing, R, '%s:%s %s' % (rel, fn.lineno, qualname_of(fn)), key,
+                                  'the comprehension over the set `%s` feeds an order-insensitive reduction' % show(comp[2][0][0])[:40],
+                                  'an ordered comprehension iterates the set `%s` (hash order): the outcome depends on PYTHONHASHSEED' % show(comp[2][0][0])[:60])
     return n_loops
+
+
+def _comps_with_parent(t, parent):
+    if isinstance(t, tuple):
+        if t and isinstance(t[0], str):
+            if t[0] in ('listcomp', 'genexp'):
+                yield t, parent
+            parent = t
+        for x in t:
+            if isinstance(x, tuple):
+                for r in _comps_with_parent(x, parent):
+                    yield r
 
 
 # ---------------------------------------------------------------------------
